@@ -28,6 +28,8 @@ def gen_cases(tier, seed):
             continue
         c["dtype"] = ["float64", "float32"][c["n"] % 2]
         c["storage"] = ["plain", "strided", "plain", "transposed", "shared-base", "plain"][c["n"] % 6]
+        if c["op"] in ("sigmoid", "tanh", "selu", "softmax", "log_softmax", "bce_with_logits", "cross_entropy") and c["n"] % 3 == 1:
+            c["a"] = dict(c["a"], vclass="huge")           # saturating magnitudes (|x| up to 800), both dtypes
         sv = SPECIAL_V.get(c["op"])
         if sv:
             c["a"] = dict(c["a"], vclass=sv[c["n"] % len(sv)])
